@@ -24,6 +24,8 @@ pub use floats::*;
 pub use math_traits::*;
 pub use matrix_traits::*;
 pub(crate) use matrix_types::*;
+#[cfg(feature = "verif")]
+pub use matrix_types::{MatrixShape, MatrixTriangle};
 pub(crate) use scalarmath::*;
 pub(crate) use utils::*;
 
